@@ -145,12 +145,12 @@ pub mod shell_request {
                 && w2.woken == (if c1.target.waker is Some { w1.woken.push(c1.target.waker->0.id()) } else { w1.woken }))
     }
 
-//@extract id=legacy::request_from_shell::resolve-callback file=crux_core/src/capability/shell_request.rs within="impl<Op, Ev> crate::capability::CapabilityContext<Op, Ev>" item="fn request_from_shell" closure="Request::resolves_once\(operation,\s*" props=C02+C06
+//@extract id=legacy::request_from_shell::resolve-callback file=crux_core/src/capability/shell_request.rs within="impl<Op, Ev> crate::capability::CapabilityContext<Op, Ev>" item="fn request_from_shell" closure="Request::resolves_once\(operation,\s*" props=C02+C06+C13
 //@expect move |$x|
 //@sig pub fn resolve_callback<T>(callback_shared_state: &mut WeakState<SharedState<T>>, Tracked(w): Tracked<&mut LW>, $x: T)
 //@contract
         ensures
-            !old(callback_shared_state).alive ==> *final(callback_shared_state) == *old(callback_shared_state) && *final(w) == *old(w), // [C02+C06/legacy-request/resolve/a-dropped-future-makes-the-resolution-a-no-op]
+            !old(callback_shared_state).alive ==> *final(callback_shared_state) == *old(callback_shared_state) && *final(w) == *old(w), // [C02+C06+C13/legacy-request/resolve/a-dropped-future-makes-the-resolution-a-no-op-the-callback-does-not-own-the-shared-state]
             old(callback_shared_state).alive ==> final(callback_shared_state).target.result == Some($x), // [C02/legacy-request/resolve/the-value-is-stored-unchanged]
             old(callback_shared_state).alive && old(callback_shared_state).target.waker is Some ==> final(w).woken == old(w).woken.push(old(callback_shared_state).target.waker->0.id()) && final(callback_shared_state).target.waker is None, // [C02/legacy-request/resolve/a-registered-waker-is-woken-exactly-once-in-the-same-critical-section]
             resolve_section(*old(callback_shared_state), *final(callback_shared_state), *old(w), *final(w), $x),
@@ -251,12 +251,12 @@ pub mod shell_stream {
                 && w2.woken == (if c1.target.waker is Some { w1.woken.push(c1.target.waker->0.id()) } else { w1.woken }))
     }
 
-//@extract id=legacy::stream_from_shell::resolve-callback file=crux_core/src/capability/shell_stream.rs within="impl<Op, Ev> crate::capability::CapabilityContext<Op, Ev>" item="fn stream_from_shell" closure="Request::resolves_many_times\(operation,\s*" props=C02+C06
+//@extract id=legacy::stream_from_shell::resolve-callback file=crux_core/src/capability/shell_stream.rs within="impl<Op, Ev> crate::capability::CapabilityContext<Op, Ev>" item="fn stream_from_shell" closure="Request::resolves_many_times\(operation,\s*" props=C02+C06+C13
 //@expect move |$x|
 //@sig pub fn resolve_callback<T>(callback_shared_state: &mut WeakState<SharedState<T>>, sender: &Sender<T>, Tracked(w): Tracked<&mut LW>, $x: T) -> (r: Result<(), ()>)
 //@contract
         ensures
-            !old(callback_shared_state).alive ==> r is Err && *final(callback_shared_state) == *old(callback_shared_state) && *final(w) == *old(w), // [C02+C06/legacy-stream/resolve/after-the-consumer-has-ended-a-resolution-is-rejected-and-never-delivered]
+            !old(callback_shared_state).alive ==> r is Err && *final(callback_shared_state) == *old(callback_shared_state) && *final(w) == *old(w), // [C02+C06+C13/legacy-stream/resolve/after-the-consumer-has-ended-a-resolution-is-rejected-and-never-delivered-the-callback-does-not-own-the-shared-state]
             old(callback_shared_state).alive ==> r is Ok && final(w).queue == old(w).queue.push(val_id($x)), // [C02/legacy-stream/resolve/the-value-is-queued-exactly-once-behind-the-earlier-ones]
             old(callback_shared_state).alive && old(callback_shared_state).target.waker is Some ==> final(w).woken == old(w).woken.push(old(callback_shared_state).target.waker->0.id()) && final(callback_shared_state).target.waker is None, // [C02/legacy-stream/resolve/a-registered-waker-is-woken-exactly-once-in-the-same-critical-section]
             resolve_section(*old(callback_shared_state), *final(callback_shared_state), *old(w), *final(w), $x, r),
